@@ -413,6 +413,9 @@ def check_sessions(run, capacity):
             w = h["res"].split()
             if w[2] != "1" or w[4] == "0":
                 out.append(("session", "open session (tid %d op %d) found its own slot with running=%s begin_epoch=%s: it is not counted by the reclamation protocol" % (h["tid"], h["idx"], w[2], w[4])))
+            elif len(w) > 6 and int(w[6]) > int(w[4]) + 1:
+                # the global epoch cannot pass an open session by more than one step (epoch_window)
+                out.append(("session", "open session (tid %d op %d) has begin_epoch=%s but the global epoch is already %s: the epoch thread does not wait for it" % (h["tid"], h["idx"], w[4], w[6])))
         elif o == "leave" and h["res"] == "OK":
             rec = by_tid.pop(h["tid"], None)
             if rec is not None:
